@@ -148,6 +148,22 @@ def bundled(thorough=False):
                                       "network": {"filelist": ["a.naunet", "b.naunet"], "fileformats": ["naunet", "naunet"]}}, ref="fed", tags={"bundled"})
     mo.fed_lines = f1 + f2
     out.append(mo)
+    # history in one process: the network is rendered (two layouts), then edited, then rendered again: the second set of
+    # sources is that of the edited network (dimensions, right-hand side, every Jacobian layout)
+    g2 = [_l(4, ["CO"], ["C", "O"], "5.000e-10"), _l(5, ["O", "H"], ["OH"], "6.000e-10"), _l(6, ["OH", "C"], ["CO", "H"], "7.000e-10")]
+    first = ("from naunet.templateloader import TemplateLoader\nfrom pathlib import Path\n"
+             "for m_ in ('dense', 'sparse'):\n    TemplateLoader('cvode', m_, 'cpu').render('naunet', net, path=Path('first_' + m_), save=True, jac_pattern=True)\n"
+             "TemplateLoader('odeint', 'rosenbrock4', 'cpu').render('naunet', net, path=Path('first_odeint'), save=True)\n")
+    he = Case("H-render-edit-render", {"files": [{"name": "a.naunet", "content": "\n".join(_enc.naunet(r) for r in f1) + "\n"}, {"name": "c.naunet", "content": "\n".join(_enc.naunet(r) for r in g2) + "\n"}],
+                                       "network": {"filelist": ["a.naunet"], "fileformats": ["naunet"]},
+                                       "ops": [{"op": "exec", "code": first}, {"op": "add_file", "file": "c.naunet", "format": "naunet"}]}, ref="fed", tags={"bundled"})
+    he.fed_lines = f1 + g2
+    out.append(he)
+    hr = Case("H-render-remove-render", {"files": [{"name": "a.naunet", "content": "\n".join(_enc.naunet(r) for r in f1 + g2) + "\n"}],
+                                         "network": {"filelist": ["a.naunet"], "fileformats": ["naunet"]},
+                                         "ops": [{"op": "exec", "code": first + "net.remove_reaction([4, 5])\n"}]}, ref="fed", tags={"bundled"})
+    hr.fed_lines = f1 + g2[:1]
+    out.append(hr)
     if thorough:
         out.append(Case("B-rate12_HO.leeds", {"network": {"filelist": f"{td}/rate12_HO.leeds", "fileformats": "leeds"}}, ref="meta", tags={"bundled", "large"}))
         out.append(Case("B-deuterium.krome", {"network": {"filelist": f"{ex}/deuterium/deuterium.krome", "fileformats": "krome", "elements": ["e", "H", "D", "He", "C", "N", "O"], "pseudo_elements": ["o", "p", "m"]}}, ref="meta", pseudo=["o", "p", "m"], tags={"bundled", "large"}))
